@@ -320,6 +320,10 @@ class _FilePersistence(_ConcretePersistence):
                     self.ui.debug_error_info(escape_braces(
                         "Ignored unreadable metadata in data file: %s\n%s\n"
                         % (self._data_filename, err)))
+                # records and comments are only written between data points:
+                # measurements left over before them belong to an interrupted write
+                data_point = None
+                previous_run_id = None
                 continue
 
             if line == csv_header:
